@@ -47,8 +47,8 @@ PROP = 'C02'
 LEVEL = 'exploration'
 RULE = ('trees first, text second. Quick, exhaustive: all trees of depth <= 1 over 14 operators x 14 leaves; '
         'all depth-2 trees with one operator child (either side): 14 inner operators over a 6-leaf pool '
-        '(2, 3, 0.5, "4", TRUE, A1), the free operand from (2, 3, "4", A1); all depth-2 trees with two operator children x position-specific '
-        '2-leaf pools; function-call trees (SUM/IF/ABS over leaf and depth-1 arguments, calls as operands). '
+        '(2, 3, 0.5, "4", TRUE, A1), the free operand from (2, 3, "4", A1); all depth-2 trees with two '
+        'operator children x position-specific 2-leaf pools; function-call trees (SUM/IF/ABS over leaf and depth-1 arguments, calls as operands). '
         'Thorough adds all depth-3 chains (one operator child per node, either side) over a 3-leaf pool and '
         'sampled trees of depth 4-6. Each tree in 2-3 renderings (minimal / fully parenthesised / every second tree varied: '
         'leaf parentheses, blanks, line feeds, function-name case), 3 rotating environments of cell values, '
@@ -535,7 +535,8 @@ def classify(tree, env, failure, style='min'):
     if k == 'num':
         return f'number-literal/{where}{number_form(sub[1])}-{kind}'
     if k in ('bool', 'err', 'ref'):
-        return f'{ {"bool": "logical", "err": "error", "ref": "reference"}[k] }-literal/{where}{kind}'
+        name = dict(bool='logical', err='error', ref='reference')[k]
+        return f'{name}-literal/{where}{kind}'
     if k == 'bin' and sub[1] == '^' and sub[2][0] == 'neg' and got[0] == 'v' and not where:
         return 'unary-minus-under-power'
     under = sorted({opclass(c) for c in relevant_children(sub, env, styles)})
@@ -599,7 +600,7 @@ def judge_tree(ctx, tree, env, styles, workbook=False, sampled=False, part='tree
                 ctx.violation(key, f'{text!r} [{style}, {route}] -> '
                               f'{show(got[1])}{"" if got[0] == "v" else " (" + got[0] + ")"}; the tree '
                               f'{describe(tree)} evaluates to {show(want)}; python_code={got[2]!r}; '
-                              f'cells={ {k: v for k, v in env.items() if refers(tree, k)} }', case)
+                              f'cells={dict((k, v) for k, v in env.items() if refers(tree, k))}', case)
                 return key
         return None
     norms = {norm(g) for _, _, _, g in seen}
